@@ -58,6 +58,7 @@ def run(rep, tier):
         "conditions on immutable locals kept consistent) and checks the clause on every path, so the verdict "
         "holds for every program of combinator calls and every input; nothing is executed.")
     configs = ["default", "nomemchr"] + (["pestall"] if tier == "thorough" else [])
+    configs = rep.cfgs(configs)
     rep.configs = configs
     for cfg in configs:
         c = facts.facts(cfg).crate("pest")
@@ -66,6 +67,7 @@ def run(rep, tier):
         mode(rep, c, sfx)
         rewind(rep, c, sfx)
         rule_tokens(rep, c, sfx)
+        queue_writers(rep, c, sfx)
         nomove(rep, c, sfx)
         scratch(rep, c, sfx)
         boundary(rep, c, sfx)
@@ -451,6 +453,45 @@ def rule_tokens(rep, c, sfx):
             r.violation("guard-predicate", where(fn["body"]),
                         "token emission predicate is %s, documented contract is lookahead == None && "
                         "atomicity != Atomic" % (g,))
+
+
+# ------------------------------------------------------------------ QUEUEW
+
+def queue_writers(rep, c, sfx):
+    r = rep.rule("C03.QUEUEW" + sfx, 5,
+                 "who may write the token queue: besides rule() (Start/End/truncate, decided by RULE) and sequence() "
+                 "(rollback, decided by REWIND), every write to ParserState.queue is guarded by lookahead == None, so "
+                 "nothing run inside a look-ahead can touch tokens emitted before it began")
+    covered = {PS + "::rule": "RULE", PS + "::sequence": "REWIND"}
+    none_eq = "(S.lookahead == pest::parser_state::Lookahead::None)"
+    none_ne = "(S.lookahead != pest::parser_state::Lookahead::None)"
+    for fn in c.bodies:
+        if fn.get("exp") or fn.get("test") or "::tests::" in fn["path"]:
+            continue
+        acc = hirq.mutating_field_accesses(fn["body"], "queue", "ParserState")
+        if not acc:
+            continue
+        ctx = hirq.Ctx(fn)
+        short = fn["path"].replace(PS + "::", "")
+        for (x, how, parent) in acc:
+            key = "%s:%s" % (short, how.split("::")[-1])
+            if fn["path"] in covered:
+                r.instance(key, where(x), "decided by " + covered[fn["path"]])
+                continue
+            ok = False
+            for g in ctx.guards(x):
+                if g[0] == "if" and g[2] and any(canon_cond(cj) == none_eq for cj in conjuncts(g[1])):
+                    ok = True
+                if g[0] == "if" and not g[2] and canon_cond(g[1]) == none_ne:
+                    ok = True
+                if g[0] == "not" and canon_cond(g[1]) == none_ne:
+                    ok = True
+            r.instance(key, where(x), "guarded by lookahead == None" if ok else "unguarded")
+            if not ok:
+                r.violation(key, where(x),
+                            "%s writes the token queue (%s) without a lookahead == None guard: run inside &e / !e it "
+                            "changes a token emitted before the look-ahead began (e.g. `a ~ &(#t = b)` retags the "
+                            "pair of a)" % (short, how))
 
 
 # ------------------------------------------------------------------ NOMOVE
